@@ -824,8 +824,20 @@ def part_witnesses(ctx, ct, asr, VNA):
 
 
 # ---------------------------------------------------------------- entry points ------------
+def cap_violations(ctx, per_key=3):
+    """report at most `per_key` failing inputs per failure class"""
+    orig, seen = ctx.violation, {}
+
+    def violation(key, inp, desc, observed=None, expected=None):
+        seen[key] = seen.get(key, 0) + 1
+        if seen[key] <= per_key:
+            orig(key, inp, desc, observed=observed, expected=expected)
+    ctx.violation = violation
+
+
 def run(ctx):
     ct, asr, VNA = impl()
+    cap_violations(ctx)
     ctx.extra["rule"] = (
         "A: random operation trees (ValueSet(*items), add_value, add_range, +, AnyValue) over values 0..%d with chains of overlapping/adjacent "
         "ranges, duplicates, bools, every 8th tree with inverted ranges; observed: internal sets, `q in s` for q in %d..%d, iter_values, "
